@@ -53,7 +53,7 @@ def letters(L, aliases=True):
 def bounds(tier, seed):
     if tier == "quick":
         return {"Lmax": 4, "depth_full": 3, "extra_block": "depth 4, first two letters fixed by VERIF_SEED, L=3"}
-    return {"Lmax": 5, "depth_full": "4 for L<=3, 3 for L in 4..5", "depth_no_aliases": 5, "Lmax_depth5": 1}
+    return {"Lmax": 5, "depth_full": "4 for L<=3, 3 for L in 4..5", "depth_no_aliases": "5 (4 after a first take/tee)", "Lmax_depth5": 1}
 
 
 def plan(tier, seed):
@@ -79,9 +79,11 @@ def plan(tier, seed):
             for first in range(nl):
                 shards.append(("hist", L, first, 4 if L <= 3 else 3, True))
         for L in range(0, 2):
-            nl = len(letters(L, False))
-            for first in range(nl):
-                shards.append(("hist", L, first, 5, False))
+            la = letters(L, False)
+            for first in range(len(la)):
+                # depth 5 where the first operation keeps one live query; 4 after take/tee (measured: the branching of
+                # several live queries makes a depth-5 block a 15-minute shard)
+                shards.append(("hist", L, first, 4 if la[first][0] in ("take", "tee") else 5, False))
         for mode in ("dupnode", "dupval"):
             for L in range(1, 6):
                 for first in range(len(letters(L))):
